@@ -115,6 +115,20 @@ func kfIdentityKey(k1, k2 string) []string {
 	return nil
 }
 
+// isTypeSetText: a TypeSet given as a type expression
+func isTypeSetText(d *V) bool {
+	return d.K == "Type" && d.T.K == "Text" && strings.HasPrefix(string(d.T.S), "TypeSet[")
+}
+
+// kfTypeSetKey is the tag of the open finding typeset-key-by-content: two TypeSets that are equal (same name, authority,
+// pcore URI and versions) whose hash keys, which also hold the types of the sets, differ
+func kfTypeSetKey(x, y *V, k1, k2 string) []string {
+	if k1 != k2 && isTypeSetText(x) && isTypeSetText(y) && string(x.T.S) != string(y.T.S) {
+		return []string{"kf:typeset-key-by-content"}
+	}
+	return nil
+}
+
 func (ck *checker) equals(x, y px.Value, dx, dy *V, how string) bool {
 	var e bool
 	fault, err := guarded(func() { e = x.Equals(y, nil) })
@@ -210,7 +224,7 @@ func (ck *checker) pairs() {
 				ke := x.key == y.key
 				ck.res.Evaluations++
 				if e && !ke {
-					ck.violateT("key-iff-eq", fmt.Sprintf("%s equals %s but their hash keys differ: %q, %q", x.d, y.d, x.key, y.key), kfIdentityKey(x.key, y.key), x.d, y.d)
+					ck.violateT("key-iff-eq", fmt.Sprintf("%s equals %s but their hash keys differ: %q, %q", x.d, y.d, x.key, y.key), append(kfIdentityKey(x.key, y.key), kfTypeSetKey(x.d, y.d, x.key, y.key)...), x.d, y.d)
 				}
 				if ke && !e && x.d.clean() && y.d.clean() {
 					ck.violate("key-iff-eq", fmt.Sprintf("%s and %s are not equal but have the same hash key %q", x.d, y.d, x.key), x.d, y.d)
@@ -254,7 +268,8 @@ func (ck *checker) lookups(rng *lib.Rng, nHashes int) []getCase {
 	items := ck.p.items
 	var cands []int
 	for i, it := range items {
-		if it.keyOK && it.d.clean() && ck.eq[i].get(i) {
+		// TypeSets are left out: equal ones with different keys are the open finding typeset-key-by-content, reported by key-iff-eq
+		if it.keyOK && it.d.clean() && ck.eq[i].get(i) && !isTypeSetText(it.d) {
 			cands = append(cands, i)
 		}
 	}
@@ -365,7 +380,8 @@ func (ck *checker) uniques(rng *lib.Rng, n int) []uniqueCase {
 	items := ck.p.items
 	var cands []int
 	for i, it := range items {
-		if it.keyOK && it.d.clean() && ck.eq[i].get(i) {
+		// TypeSets are left out: equal ones with different keys are the open finding typeset-key-by-content, reported by key-iff-eq
+		if it.keyOK && it.d.clean() && ck.eq[i].get(i) && !isTypeSetText(it.d) {
 			cands = append(cands, i)
 		}
 	}
